@@ -108,7 +108,7 @@ impl Property for C07 {
     }
     fn budget(tier: Tier) -> u64 {
         match tier {
-            Tier::Quick => 40_000,
+            Tier::Quick => 120_000,
             Tier::Thorough => 1_500_000,
         }
     }
